@@ -704,6 +704,16 @@ func (e *SpecEnv) evalCall(x *SCall) Val {
 			}
 			k = e.coerce(k, mt.Key())
 			return Val{T: boolT, S: fmt.Sprintf("(and (not (= %s 0)) (select (select %s %s) %s))", m.S, e.st.get(c.so.heapMapDom(mt.Key(), mt.Elem())), m.S, c.termOf(k))}
+		case "bytestr": // the one-byte string consisting of byte b
+			b := e.coerce(e.eval(x.Args[0]), types.Typ[types.Byte])
+			if _, _, ok := intInfo(b.T); !ok {
+				e.fail("bytestr needs a byte")
+			}
+			bt := c.convertInt(b.S, b.T, types.Typ[types.Byte])
+			if c.mode == ModeInt {
+				bt = fmt.Sprintf("(mod %s 256)", b.S)
+			}
+			return Val{T: types.Typ[types.String], S: c.strOfByte(bt)}
 		case "first", "second", "third":
 			v := e.eval(x.Args[0])
 			i := map[string]int{"first": 0, "second": 1, "third": 2}[id.Name]
@@ -846,6 +856,14 @@ func (e *SpecEnv) convert(a Val, t types.Type) Val {
 		return Val{T: t, S: c.convertInt(a.S, a.T, t)}
 	case isString(a.T) && isString(t):
 		return Val{T: t, S: a.S}
+	case fi && isFloat(t):
+		// the same uninterpreted conversions the translation of code uses
+		c.uf("int_to_flt", fmt.Sprintf("(%s) Flt", c.so.intSort(a.T)))
+		return Val{T: t, S: fmt.Sprintf("(int_to_flt %s)", a.S)}
+	case isFloat(a.T) && ti:
+		fn := "flt_to_" + c.so.typeName(t)
+		c.uf(fn, fmt.Sprintf("(Flt) %s", c.so.intSort(t)))
+		return Val{T: t, S: fmt.Sprintf("(%s %s)", fn, a.S)}
 	case isByteSlice(a.T) && isString(t):
 		return Val{T: t, S: c.bytesToStr(e.st.get(c.so.heapArr(types.Typ[types.Byte])), a.S)}
 	}
@@ -1011,7 +1029,7 @@ func isIdentChar(b byte) bool {
 // callPure evaluates a loop-free Go function as a term by inlining it.
 func (e *SpecEnv) callPure(fn *ssa.Function, args []Val) Val {
 	c := e.c
-	if e.st == nil {
+	if e.st == nil && !pureExternal(fullName(fn)) {
 		e.fail("pure call %s without state", fn.Name())
 	}
 	// contract marked pure with uninterpreted semantics?
